@@ -98,7 +98,8 @@ PROPS = {
         "technique": "runtime monitoring: survivor-set oracle (limits, contiguous newest tail of the "
                      "logged stream, gzip round trip, current file spared) after each rotation "
                      "(sync cleanup) or after shutdown (background / async-writer cleanup, with "
-                     "scheduling noise at the cleanup hook points)",
+                     "scheduling noise at the cleanup hook points); thread-parking schedule controller "
+                     "walking the interleavings of rotation steps and cleanup-thread steps depth-first",
         "level_text": "Held on the executions explored: for seeded histories of writes, rotations "
                       "(incl. several per virtual second) and restarts under KeepLogFiles / "
                       "KeepCompressedFiles / KeepLogAndCompressedFiles (limits 0..5), all namings, "
@@ -106,7 +107,12 @@ PROPS = {
                       "within the limits, form the newest contiguous tail of the logged stream, "
                       "every .gz decodes to its segment, compressed files are the older ones, the "
                       "current file is plain and present. Background-thread interleavings are "
-                      "sampled (noise), not enumerated.",
+                      "sampled with noise and, for small configurations (0-4 earlier rotations, then "
+                      "1-3 rotations under control), executed one by one: logging thread parked "
+                      "between operations, before the rename and before the open of a rotation, "
+                      "cleanup thread parked at act/list/remove/gz_create/gz_remove_src/done; the "
+                      "choice tree is walked depth-first until exhausted or capped (then seeded "
+                      "random schedules); evidence counts configurations, executions and exhausted trees.",
         "level_note": "Trusted: never-trimming segment model + survivor bounds (Appendix C: lower "
                       "bound min(R,k+m) minus one for direct namings), family parser. Async mode: "
                       "size criterion only and no explicit rotations (their ordering is C15's).",
@@ -529,7 +535,7 @@ RULE_ADDENDA = {
     "C03": "every 4th file case uses a format that refuses sprinkled records; every 16th case is a file + stderr duplicate whose format refuses",
     "C04": "a third of the in-process cases route records to an additional file writer; endings include two concurrent shutdowns; 1 of 8 cases is flush() while 1-4 other threads log",
     "C06": "every 16th case is a DST child (history in one pass of the repeated hour vs. the same history a week later, 4 zones, optional file from the skipped hour, listing against the directory); empty discriminant among the name parts",
-    "C07": "background-cleanup cases hold the logging thread back between rename and writer swap; judged only now and then",
+    "C07": "background-cleanup cases hold the logging thread back between rename and writer swap; judged only now and then; every 48th case (thorough: half the cases of shards 8-15) is a controlled-schedule configuration (shape prefix sched|, non-trivial iff a step of one thread ran inside the other's rotation / work list)",
     "C08": "reopen_output() with the file in place is one of the operations",
     "C09": "reopen_output() with the file in place is one of the operations",
     "C10": "memory buffer as primary output with limits around the line lengths; recursion nesting depth 2-4; every 32nd case is a DST child",
